@@ -360,6 +360,20 @@ Theorem C14_field_matcher_create_present :
 Proof. exact field_matcher_create_present. Qed.
 Print Assumptions C14_field_matcher_create_present.
 
+(* FieldMatcher{StringRegexValue}: the expression is searched (unanchored) in the Value of a scalar; anchored to a
+   literal it is Match(v); with a Name it plays no role *)
+Theorem C14_field_matcher_regex_anchored_literal :
+  forall (nonstr : string -> bool) (v : string) (x : node),
+    field_matcher_regex nonstr "" (Some (Regex.anchor (Regex.lit v))) x = fm_match nonstr v x.
+Proof. exact field_matcher_regex_anchored_literal. Qed.
+Print Assumptions C14_field_matcher_regex_anchored_literal.
+
+Theorem C14_field_matcher_regex_named :
+  forall (nonstr : string -> bool) (name : string) (r : option Regex.re) (x : node),
+    name <> "" -> field_matcher_regex nonstr name r x = fm_get nonstr name x.
+Proof. exact field_matcher_regex_named. Qed.
+Print Assumptions C14_field_matcher_regex_named.
+
 (* ---------- ElementSetter on a keyed list: lens laws ----------
    Hypotheses: one non-empty key k with a non-empty value v; [clean es]: the list has no null and no empty-mapping
    element (ElementSetter silently drops those, see C14_elem_setter_unclean_refuted); the element written
